@@ -160,6 +160,19 @@ func libCover(name string, opts []cat.Opts, cb bool, q, t, faults int) coverPlan
 		}}
 }
 
+// pathsCover: tiny random catalogs explored WITHOUT a view: the tree of all histories, every one
+// of them replayed (path-sensitive defects: graph positions, leftovers of a rollback).
+func pathsCover(opts []cat.Opts, q, t, faults int, tw ...func(*fam.Features)) coverPlan {
+	return coverPlan{name: "all-paths", bounds: Bounds{MaxInv: 2, MaxFaults: faults, FaultKinds: errKinds, NoView: true},
+		cats: func(seed int64, tier string) []*cat.Catalog {
+			ft := fam.Presets["tiny"]
+			for _, f := range tw {
+				f(&ft)
+			}
+			return fam.RandomFamily(seed+29, scale(tier, q, t), withOpts(ft, opts))
+		}}
+}
+
 // libGroupsCover: big value groups over declared functions, registrations in a fixed random order.
 func libGroupsCover(opts []cat.Opts, cb bool, q, t, faults int) coverPlan {
 	return coverPlan{name: "libgroups", bounds: Bounds{MaxInv: 1, MaxFaults: faults, FaultKinds: errKinds},
@@ -277,14 +290,15 @@ func init() {
 		run: genericRun(stagePlan{
 			repo: true,
 			covers: []coverPlan{
-				randCover("lazy", small, rec, 60, 500, 0),
+				randCover("lazy", small, rec, 40, 400, 0),
+				randCover("lazy-after-failures", small, recBoth, 40, 400, 1),
 				structCover("chain", fam.Chain, rec, false, 60, 500, 2, 0),
 				wideCover("chain", fam.Chain, rec, false, 250, 0),
 				structCover("groups", fam.Groups, rec, false, 15, 40, 2, 0),
 				wideCover("groups", fam.Groups, rec, false, 60, 0),
 				wideCover("reenter", fam.Reenter, rec, false, 40, 0),
 			},
-			traces: stdTraces("lazy", medium, 0, stdOpts)})})
+			traces: stdTraces("lazy", medium, 0.06, stdOpts)})})
 
 	register(&propDef{id: "C04",
 		projection: "verdict class of Invoke (missing versus ok), the reported missing keys, zero versus value for optional parameters, executions past a known gap",
@@ -311,6 +325,8 @@ func init() {
 			repo: true,
 			covers: []coverPlan{
 				structCover("reenter", fam.Reenter, deferBoth, false, 12, 200, 1, 0),
+				structCover("groupcycle", fam.GroupCycle, deferBoth, false, 20, 150, 1, 0),
+				pathsCover(deferBoth, 30, 400, 0),
 				digraphCover("digraphs-req", "req", deferBoth, 120, 2500),
 				digraphCover("digraphs-opt", "opt", deferBoth, 50, 1200),
 				digraphCover("digraphs-grp", "grp", deferBoth, 60, 1500),
@@ -349,6 +365,8 @@ func init() {
 		run: genericRun(stagePlan{
 			covers: []coverPlan{
 				randCover("reject", tweak(small, func(f *fam.Features) { f.Types = 2; f.PNamed = 0.05; f.Ctors = 3; f.Decs = 1; f.PInvalid = 0.7 }), rec, 40, 400, 0),
+				pathsCover(rec, 30, 400, 0, func(f *fam.Features) { f.PInvalid = 0.7 }),
+				structCover("groupcycle", fam.GroupCycle, rec, false, 16, 150, 2, 0),
 				digraphCover("digraphs-req", "req", rec, 100, 1500),
 				digraphCover("digraphs-grp", "grp", rec, 50, 800),
 				structCover("shadow", fam.Shadow, rec, false, 60, 0, 2, 0),
@@ -366,6 +384,7 @@ func init() {
 			repo: true,
 			covers: []coverPlan{
 				randCover("fault", small, recBoth, 40, 400, 2),
+				pathsCover(recBoth, 30, 400, 1),
 				structCover("chain", fam.Chain, recBoth, true, 20, 500, 2, 2),
 				wideCover("chain", fam.Chain, recBoth, true, 200, 1),
 				structCover("groups", fam.Groups, recBoth, false, 3, 40, 2, 1),
@@ -387,6 +406,7 @@ func init() {
 				wideCover("shadow", fam.Shadow, rec, false, 80, 0),
 				structCover("groups", fam.Groups, rec, false, 12, 40, 2, 0),
 				randCover("scopes", tweak(small, func(f *fam.Features) { f.Scopes = 3; f.Types = 2; f.PExport = 0.4; f.Decs = 0 }), rec, 40, 400, 0),
+				pathsCover(rec, 30, 400, 0),
 			},
 			traces: stdTraces("scopes", tweak(medium, func(f *fam.Features) { f.Scopes = 4; f.PExport = 0.4 }), 0, stdOpts)})})
 
@@ -423,13 +443,15 @@ func init() {
 		run: genericRun(stagePlan{
 			repo: true,
 			covers: []coverPlan{
-				structCover("groups", fam.Groups, rec, false, 30, 40, 2, 0),
-				wideCover("groups", fam.Groups, rec, false, 120, 0),
+				structCover("groups", fam.Groups, rec, false, 24, 40, 2, 0),
+				wideCover("groups", fam.Groups, recBoth, false, 100, 1),
 				wideCover("softnest", fam.SoftNest, rec, false, 60, 0),
+				structCover("groupcycle", fam.GroupCycle, rec, false, 10, 100, 2, 0),
 				wideCover("keys", fam.Keys, rec, false, 100, 0),
-				randCover("groups-rand", tweak(small, groupy), rec, 60, 500, 0),
+				randCover("groups-rand", tweak(small, groupy), rec, 40, 400, 0),
+				randCover("groups-after-failures", tweak(small, groupy), recBoth, 40, 400, 1),
 			},
-			traces: stdTraces("groups", tweak(medium, groupy), 0, stdOpts)})})
+			traces: stdTraces("groups", tweak(medium, groupy), 0.06, stdOpts)})})
 
 	register(&propDef{id: "C11",
 		projection: "bag of every soft group slice, executions caused by soft parameters",
@@ -508,6 +530,7 @@ func init() {
 			repo: true,
 			covers: []coverPlan{
 				randCover("orders", small, deferBoth, 40, 400, 0),
+				pathsCover(deferBoth, 30, 400, 0),
 				randCover("orders-rejects", tweak(small, func(f *fam.Features) { f.PInvalid = 0.8; f.Types = 2; f.PNamed = 0.05 }), deferBoth, 30, 300, 0),
 				structCover("chain", fam.Chain, deferBoth, false, 50, 500, 2, 0),
 				structCover("groups", fam.Groups, deferBoth, false, 10, 40, 2, 0),
